@@ -187,7 +187,7 @@ fn c18_worker(a: &Args) -> i32 {
     let replay_dir = a.str("replay-dir", "/verif/replays");
     let max_viol = a.u64("max-violations", 3);
     let start = a.u64("start", 0);
-    let pool = Pool::load(&a.str("repo", "/repo"));
+    let pool_arc = std::sync::Arc::new(Pool::load(&a.str("repo", "/repo")));
     let rev = a.str("ref-order", "fwd") == "rev";
     let progress = a.kv.get("progress").cloned();
     let mut refsf = a.kv.get("dump-refs").map(|p| std::io::BufWriter::new(std::fs::File::create(p).unwrap_or_else(|e| die(&format!("{p}: {e}")))));
@@ -204,7 +204,11 @@ fn c18_worker(a: &Args) -> i32 {
         if let Some(p) = &progress {
             let _ = std::fs::write(p, format!("{i}"));
         }
-        let sc = gen_scenario(rs, &pool);
+        // (placing faults counts events with the pull parser: inside an execution for shadow builds)
+        let sc = {
+            let pool2 = pool_arc.clone();
+            c18::in_shuttle(move || gen_scenario(rs, &pool2))
+        };
         let rp = c18::reference_phase_ordered(&sc, rev);
         if let Some(f) = refsf.as_mut() {
             for (k, v) in &rp.env.refs {
@@ -433,12 +437,54 @@ fn main() {
 
 fn dispatch(cmd: &str, a: &Args) -> i32 {
     let a = a;
+    if cfg!(feature = "shadow") && matches!(cmd, "realthreads" | "confirm" | "probe-repeat" | "c11") {
+        die("this subcommand runs real threads or needs no shadow build; use the normal cooksim binary");
+    }
     match cmd {
         "c18" => c18_worker(a),
         "c11" => c11::worker(a),
         "replay" => replay(a),
         "minimise" => minimise::run(a),
         "distinct" => distinct(a),
+        // the stored schedule of a (minimised) file does not reproduce in this fresh process:
+        // search seeded schedules for one that does and store it (exit 1 = found and rewritten)
+        "research" => {
+            let path = a.pos.get(1).cloned().unwrap_or_else(|| die("research needs a file"));
+            let text = std::fs::read_to_string(&path).unwrap_or_else(|e| die(&format!("{path}: {e}")));
+            let mut rf: ReplayFile = serde_json::from_str(&text).unwrap_or_else(|e| die(&format!("{path}: {e}")));
+            let Some(sc) = rf.scenario.clone() else { die("research needs a scenario") };
+            let rp = c18::reference_phase(&sc);
+            let tries = a.u64("tries", 4000);
+            let mut found = None;
+            for i in 0..tries {
+                let sched = match i % 4 {
+                    0 => SchedSpec::Random { seed: i, stay: 0 },
+                    1 => SchedSpec::Pct { seed: i, depth: 3, est: 64 },
+                    2 => SchedSpec::Random { seed: i, stay: 80 },
+                    _ => SchedSpec::Pct { seed: i, depth: 5, est: 200 },
+                };
+                let (v, st) = c18::execute(&rp, &sched, false);
+                if v.iter().any(|x| x.class == rf.class) {
+                    found = Some((st.choices, v, i));
+                    break;
+                }
+            }
+            match found {
+                Some((choices, v, i)) => {
+                    rf.sched = Some(SchedSpec::List { choices });
+                    let class = rf.class.clone();
+                    rf.violations = v.into_iter().filter(|x| x.class == class).take(3).collect();
+                    rf.notes.push(format!("schedule re-searched in a fresh process (found at try {i})"));
+                    std::fs::write(&path, serde_json::to_string_pretty(&rf).unwrap()).unwrap_or_else(|e| die(&format!("{path}: {e}")));
+                    println!("RESEARCH-FOUND try={i}");
+                    1
+                }
+                None => {
+                    println!("RESEARCH-NOT-FOUND tries={tries}");
+                    0
+                }
+            }
+        }
         // print the scenario of a run index (embedded into replay files that name a run only)
         "scenario" => {
             let pool = Pool::load(&a.str("repo", "/repo"));
@@ -452,6 +498,7 @@ fn dispatch(cmd: &str, a: &Args) -> i32 {
             let text = std::fs::read_to_string(&path).unwrap_or_else(|e| die(&format!("{path}: {e}")));
             let rf: ReplayFile = serde_json::from_str(&text).unwrap_or_else(|e| die(&format!("{path}: {e}")));
             let Some(sc) = rf.scenario.clone() else { die("confirm needs a scenario") };
+            c18::NO_SOAK.store(true, std::sync::atomic::Ordering::Relaxed);
             let (ok, how) = c18::confirm(&sc, &rf.class, a.u64("tries", 3000));
             println!("{} {how}", if ok { "CONFIRMED" } else { "UNCONFIRMED" });
             if ok { 1 } else { 0 }
